@@ -177,8 +177,23 @@ def sin(x):
     return np.sin(x)
 
 
+TRIG_MODE = {"opaque": False}
+_ATAN2 = z3.Function("Atan2", z3.RealSort(), z3.RealSort(), z3.RealSort())
+
+
 def arctan2(y, x):
-    raise Unsupported("arctan2 of symbolic values")
+    """opaque mode: the uninterpreted term Atan2(y, x) (element-wise); otherwise unsupported"""
+    if not TRIG_MODE["opaque"]:
+        raise Unsupported("arctan2 of symbolic values")
+
+    def one(a, b):
+        if not (is_symbolic(a) or is_symbolic(b)):
+            return math.atan2(float(a), float(b))
+        return Sym(_ATAN2(_real(lift(_coerce(a))), _real(lift(_coerce(b)))))
+
+    if isinstance(y, np.ndarray) or isinstance(x, np.ndarray):
+        return A.elementwise(one, y, x)
+    return one(y, x)
 
 
 def quat_from_axis_angle_vector(v):
